@@ -399,6 +399,36 @@ def nodeStart (cfg : Cfg) (ne : NodeEnv) (d : Disk) (st : Start) : Disk × List 
   | (d', l, some r) => (d', l, .ran r)
   | (d', l, none) => (d', l, .refused)
 
+/-- node/migration.go `registerMigrations(cfg)`: `NewRegistry().With(blocktransactions).WithOptional(historyprunner,
+cfg.Prune, PruneModeFlag).WithOptional(headstate, cfg.NewState, "new-state").With(statedifflength)` — the registry of
+the binary as a function of the two command-line switches. -/
+def nodeRegistry (prune newState : Bool) : Registry :=
+  [⟨false, false⟩, ⟨true, prune⟩, ⟨true, newState⟩, ⟨false, false⟩]
+
+/-- The flag names `registerMigrations` gives to `WithOptional` (index = migration index; empty for `With`). -/
+def nodeFlagNames : List String := ["", "prune-mode", "new-state", ""]
+
+/-- One start of the node as configured on the command line: `ne.prune` = `--prune-mode`, `newState` =
+`--new-state`, `ne.http` = `--http`; the environment decides the rest. -/
+structure NodeCfg where
+  ne : NodeEnv
+  newState : Bool
+  env : Env
+
+def NodeCfg.start (c : NodeCfg) : Start := ⟨nodeRegistry c.ne.prune c.newState, c.env⟩
+
+/-- `migrateIfNeeded(ctx, database, config, …)` with the registry `registerMigrations(config)` builds. -/
+def nodeRun (cfg : Cfg) (d : Disk) (c : NodeCfg) : Disk × List Event × NodeRes := nodeStart cfg c.ne d c.start
+
+/-- Any number of node starts with changing flag sets (multi-start history); the log is the concatenation,
+newest first. -/
+def nodeRuns (cfg : Cfg) : Disk → List NodeCfg → Disk × List Event
+  | d, [] => (d, [])
+  | d, c :: rest =>
+    let (d', l, _) := nodeRun cfg d c
+    let (d'', l') := nodeRuns cfg d' rest
+    (d'', l' ++ l)
+
 /-- Any number of starts; the log is the concatenation, newest first. -/
 def starts (cfg : Cfg) : Disk → List Start → Disk × List Event
   | d, [] => (d, [])
